@@ -274,7 +274,7 @@ class Interp(object):
                 pass
             self.abnormal += 1
             self.ctx.count('play:pf_interrupt')
-        elif what == 'missing_key':
+        elif what in ('missing_key', 'missing_key_original_raises', 'missing_key_original_interrupted'):
             # replay with a program that asks for an input that was never recorded
             from playback.tape_recorder import TapeRecorder
             W2 = PS.World('REPLAY')
@@ -292,6 +292,12 @@ class Interp(object):
                                  'ending': 'return', 'result': None, 'extractor': 'none'})
             for s in p2['steps']:
                 s['reraise_framework'] = True
+            if what != 'missing_key':
+                # the input is declared with run_intercepted_when_missing: the replay runs the original function, which
+                # fails (the operation copes with it: an ordinary exception, or an interrupt-style timeout it swallows)
+                p2['ins'][0]['run_missing'] = True
+                p2['steps'][-1]['beh'] = 'raise' if what == 'missing_key_original_raises' else 'interrupt'
+                p2['steps'][-1]['swallow_interrupt'] = True
             cls2 = PS.build_class(p2, self.rec, W2)
             self.classes.append(cls2)
 
@@ -308,7 +314,7 @@ class Interp(object):
                 # recorded program swallowed it, this one does not): the replay ends by it, which is just as abnormal
                 pass
             self.abnormal += 1
-            self.ctx.count('play:missing_key')
+            self.ctx.count('play:' + what)
 
     def op_probe(self, op):
         from playback.tape_recorder import TapeRecorder
@@ -376,7 +382,8 @@ def make_machine(ctx):
             self.step({'op': 'run', 'prog': prog, 'faults': faults, 'params': params})
 
         @precondition(lambda self: self.interp.saved)
-        @rule(what=st.sampled_from(['ok', 'ok', 'missing_key', 'missing_key', 'pf_raises', 'pf_interrupt']),
+        @rule(what=st.sampled_from(['ok', 'ok', 'missing_key', 'missing_key', 'pf_raises', 'pf_interrupt',
+                                    'missing_key_original_raises', 'missing_key_original_interrupted']),
               n=st.integers(0, 20))
         def play(self, what, n):
             self.step({'op': 'play', 'what': what, 'n': n})
